@@ -244,12 +244,53 @@ func vspecAckType(s message.Type) bool {
 
 //@ func (*Session).Init
 //@   results err
-//@   requires msg != nil && !held(addr(s.mu)) && message.vdefConnSizes(msg) && len(msg.mtypeflags) == 1 && len(msg.dbuf) <= 268435460
+//@   requires msg != nil && !held(addr(s.mu))
+//@   requires message.vdefConnSizes(msg)
+//@   requires len(msg.mtypeflags) == 1 && len(msg.dbuf) <= 268435460
 //@   ensures[C09:will] err == nil ==> vdefWill(s) && s.initted && s.topics != nil
 //@   modifies fields(s), msg.remlen, msg.dirty, heap("GF.clock"), heap("GF.mlockedAt"), heap("GF.encn"), heap("GF.encarr"), heap("GF.encoff"), heap("GF.encAt")
 
 //@ func (*Session).Update
 //@   results err
-//@   requires msg != nil && !held(addr(s.mu)) && message.vdefConnSizes(msg) && len(msg.mtypeflags) == 1 && len(msg.dbuf) <= 268435460
+//@   requires msg != nil && !held(addr(s.mu))
+//@   requires message.vdefConnSizes(msg)
+//@   requires len(msg.mtypeflags) == 1 && len(msg.dbuf) <= 268435460
 //@   ensures[C09:will] err == nil ==> vdefWill(s)
 //@   modifies s.cbuf, s.Cmsg, s.Will, msg.remlen, msg.dirty, heap("GF.clock"), heap("GF.mlockedAt"), heap("GF.encn"), heap("GF.encarr"), heap("GF.encoff"), heap("GF.encAt")
+
+// ---------------------------------------------------------------- the session store (C10)
+// Ghost view of the store: gfield(id, "sess") is the session kept under client identifier id (0: none). The frame
+// check makes the key isolation explicit: an operation on id changes the store at id only.
+//@ iface Provider.New
+//@   trusted
+//@   results sess, err
+//@   flag args self, id
+//@   ensures err == nil ==> sess != nil && fresh(sess) && sess.Cmsg == nil && sess.Will == nil && !sess.initted && !held(addr(sess.mu)) && gfield(id, "sess") == sess
+//@   ensures err != nil ==> sess == nil && gfield(id, "sess") == old(gfield(id, "sess"))
+//@   modifies gfield(id, "sess"), fields(sess)
+//@ iface Provider.Get
+//@   trusted
+//@   results sess, err
+//@   flag args self, id
+//@   ensures (err == nil) == (gfield(id, "sess") != 0) && (err == nil ==> sess == gfield(id, "sess") && sess != nil && !held(addr(sess.mu))) && (err != nil ==> sess == nil)
+//@ iface Provider.Del
+//@   trusted
+//@   flag args self, id
+//@   ensures gfield(id, "sess") == 0
+//@   modifies gfield(id, "sess")
+
+//@ func (*Manager).Get
+//@   results sess, err
+//@   requires m.p != nil
+//@   ensures (err == nil) == (gfield(id, "sess") != 0) && (err == nil ==> sess == gfield(id, "sess") && sess != nil && !held(addr(sess.mu))) && (err != nil ==> sess == nil)
+//@ func (*Manager).Del
+//@   requires m.p != nil
+//@   ensures[C10:del] gfield(id, "sess") == 0
+//@   ensures[ghostdef-del] gfield(m, "ndel") == old(gfield(m, "ndel"))+1
+//@   modifies gfield(id, "sess"), gfield(m, "ndel")
+//@ func (*Manager).New
+//@   trusted
+//@   results sess, err
+//@   ensures err == nil ==> sess != nil && fresh(sess) && sess.Cmsg == nil && sess.Will == nil && !sess.initted && !held(addr(sess.mu)) && (len(id) > 0 ==> gfield(id, "sess") == sess)
+//@   ensures err != nil ==> sess == nil && gfield(id, "sess") == old(gfield(id, "sess"))
+//@   modifies gfield(id, "sess"), fields(sess)
